@@ -9,8 +9,9 @@ class RandStub:
         self.ints = list(ints)
         self.flt = flt
 
-    def _next(self):
-        return self.ints.pop(0)
+    def _next(self, lo=0):
+        # when the harness supplied fewer symbolic draws than the code consumes, further draws are the smallest legal value
+        return self.ints.pop(0) if self.ints else lo
 
     near = None          # when set to (offset, from_top): draws are lo + offset / hi - offset (concrete ints)
 
@@ -29,7 +30,7 @@ class RandStub:
             off, top = self.near
             r = ib - off if top else ia + off
         else:
-            r = self._next()
+            r = self._next(ia)
         hlib.assume(ia <= r <= ib)           # contract: a <= N <= b
         return r
 
@@ -42,7 +43,7 @@ class RandStub:
                 off, top = self.near
                 r = istart - 1 - off if top else off
             else:
-                r = self._next()
+                r = self._next(0)
             hlib.assume(0 <= r < istart)
             return r
         istop = stop if isinstance(stop, int) else operator.index(stop)
@@ -55,7 +56,7 @@ class RandStub:
             off, top = self.near
             r = istop - 1 - off if top else istart + off
         else:
-            r = self._next()
+            r = self._next(istart)
         hlib.assume(istart <= r < istop)
         return r
 
